@@ -145,16 +145,19 @@ def gen_history(rng, n_versions, apps=('app1',), rows=True):
     return h
 
 
-def write_project(proj, h, apps):
-    """Write every app of history h into proj (labels e1.. per app)."""
+def write_project(proj, h, apps, deps=None):
+    """Write every app of history h into proj (labels e1.. per app).
+    deps: {app: {label: {'AFTER_EVOLUTIONS': [...], ...}}}."""
     labels_at = {}
     for app in apps:
         versions = [h.app_models(app, v) for v in range(len(h.specs))]
         evolutions, nv = [], [0]
         for i, texts in enumerate(h.texts):
             if texts.get(app):
-                evolutions.append(('e%d' % (len(evolutions) + 1),
-                                   texts[app], {}))
+                label = 'e%d' % (len(evolutions) + 1)
+                evolutions.append((label, texts[app],
+                                   ((deps or {}).get(app) or {}).get(
+                                       label) or {}))
             nv.append(len(evolutions))
         proj.write_app(app, versions, evolutions, nv=nv)
         labels_at[app] = nv
